@@ -2,6 +2,8 @@ import OmbottModel.Model.Headers
 import OmbottModel.Lemmas.Headers
 import OmbottModel.Gen.Headers
 import OmbottModel.Lemmas.AppEmit
+import OmbottModel.Lemmas.RespHelp
+import OmbottModel.Lemmas.PyInt
 /-!
 C14 — Response header values cannot split the response and are wire-safe.
 Property theorems only; helper lemmas live in `Lemmas/Headers.lean`, `Lemmas/Text.lean`.
@@ -431,3 +433,360 @@ example : App.DomainB nvAppCfg ∧
 end NonVacuity
 
 end Ombott.Headers
+
+/-! ## resphelp — the response helper classes beyond the guarded setters (`Model/RespHelp.lean`)
+
+Extension: the whole `HeaderDict` API on thread-local dicts, `HeaderProperty` for every row of the
+generated table, `copy`, `delete_cookie`, `WSGIFileWrapper`, `_closeiter`.  C14's text lists the
+single-value setters ("item assignment, append, setdefault, the header attributes, response
+constructor arguments"); `HeaderDict.update` and the `dict` property setter are bulk operations
+outside that list — the theorems below say precisely that they are the only unguarded entries. -/
+namespace Ombott.RespHelp
+open Py Ombott.Headers
+
+/-- **guarded_ops_keep_clean**: any program over `HeaderDict` objects — any number of objects
+(copies included), any threads, every operation of the API (`len iter in [] del []= append
+setdefault keys values items get pop popitem copy clear repr dict`, every `HeaderProperty`
+get / set / delete) except `update` and `dict =`, with arbitrary offered values, each call possibly
+raising — leaves every dict of every object a proper dict whose stored strings are all free of
+CR, LF and NUL.  Extends `store_clean` to the full API. -/
+theorem guarded_ops_keep_clean (calls : List (Nat × Tid × HOp)) (objs : List HD) (rs : List (Except Err Res))
+    (hg : ∀ c ∈ calls, c.2.2.unguarded = false) (hr : runH hdStart calls = some (objs, rs)) :
+    ∀ h ∈ objs, ∀ p ∈ h, StoreClean p.2 ∧ KeysNodup p.2 := by
+  refine runH_clean calls hdStart objs rs hg ?_ hr
+  intro h hh
+  simp only [hdStart, List.mem_singleton] at hh
+  subst hh
+  intro p hp
+  simp only [hdNew, List.mem_singleton] at hp
+  subst hp; exact good_nil
+
+/-- **update_is_the_only_unguarded_entry**: an operation that can take an object from a clean
+state to an unclean one (or create an unclean object) is `update` or the `dict` setter … -/
+theorem update_is_the_only_unguarded_entry (op : HOp) (h : HD) (t : Tid) (fresh : Nat) (hc : HDClean h)
+    (hbad : ¬ HDClean (stepH h t fresh op).1 ∨ ∃ c, (stepH h t fresh op).2.1 = some c ∧ ¬ HDClean c) :
+    op.unguarded = true := by
+  cases hu : op.unguarded with
+  | true => rfl
+  | false =>
+    have := stepH_clean h t fresh op hu hc
+    rcases hbad with hb | ⟨c, hc1, hc2⟩
+    · exact absurd this.1 hb
+    · exact absurd (this.2 c hc1) hc2
+
+/-- … and both really are: `update({'X': 'a\r\nSet-Cookie: x=1'})` and `dict = {'Y': ['a\nb']}` on a
+fresh `HeaderDict` store the value as it is (replayed on the real code by the oracle stream). -/
+theorem update_lets_crlf_in :
+    (stepH (hdNew 0) 0 1 (.update [("X".toList, .one "a\r\nSet-Cookie: x=1".toList)])).1 =
+      [(0, [("X".toList, .one "a\r\nSet-Cookie: x=1".toList)])] ∧
+    (stepH (hdNew 0) 0 1 (.setDict [("Y".toList, .many ["a\nb".toList])])).1 =
+      [(0, [("Y".toList, .many ["a\nb".toList])])] ∧
+    hasCtl "a\r\nSet-Cookie: x=1".toList = true ∧ hasCtl "a\nb".toList = true := by decide
+
+/-- **HeaderDict refines an insertion-ordered map** (`Headers.Store` with `dget/dset/ddel`, whose
+map laws are `dget_dset_self/other`, `dset_keys`): in a thread whose dict is `d`, every read answers
+what the map answers — `KeyError` exactly for an absent key —, and every write replaces that
+thread's dict by the map operation's result, leaving the others alone. -/
+theorem headerdict_refines_map (h : HD) (t : Tid) (f : Nat) (d : Store) (k : Str) (hd : tsGet h t = .ok d) :
+    stepH h t f .len = (h, none, .ok (.int d.length)) ∧
+    stepH h t f .keys = (h, none, .ok (.keys (d.map (·.1)))) ∧
+    stepH h t f .iter = (h, none, .ok (.keys (d.map (·.1)))) ∧
+    stepH h t f .items = (h, none, .ok (.items d)) ∧
+    stepH h t f (.contains k) = (h, none, .ok (.bool (dget d k).isSome)) ∧
+    (∀ e, dget d k = some e →
+      stepH h t f (.getitem k) = (h, none, .ok (.entry e)) ∧
+      stepH h t f (.get k) = (h, none, .ok (.entry e)) ∧
+      stepH h t f (.delitem k) = (tsSet h t (ddel d k), none, .ok .none) ∧
+      ∀ b, stepH h t f (.pop k b) = (tsSet h t (ddel d k), none, .ok (.entry e))) ∧
+    (dget d k = none →
+      stepH h t f (.getitem k) = (h, none, .error .keyError) ∧
+      stepH h t f (.get k) = (h, none, .ok .none) ∧
+      stepH h t f (.delitem k) = (h, none, .error .keyError) ∧
+      stepH h t f (.pop k false) = (h, none, .error .keyError) ∧
+      stepH h t f (.pop k true) = (h, none, .ok .none)) ∧
+    (d = [] → stepH h t f .popitem = (h, none, .error .keyError)) ∧
+    stepH h t f (.clear []) = (tsSet h t [], none, .ok .none) ∧
+    (∀ t2, t2 ≠ t → ∀ d', tsGet (tsSet h t d') t2 = tsGet h t2) := by
+  refine ⟨?_, ?_, ?_, ?_, ?_, ?_, ?_, ?_, ?_, ?_⟩
+  · simp [stepH, hd, Except.map]
+  · simp [stepH, hd, Except.map]
+  · simp [stepH, hd, Except.map]
+  · simp [stepH, hd, Except.map]
+  · simp [stepH, hd, Except.map]
+  · intro e he
+    refine ⟨?_, ?_, ?_, ?_⟩ <;> simp [stepH, hd, he, Except.map, Except.bind]
+  · intro he
+    refine ⟨?_, ?_, ?_, ?_, ?_⟩ <;> simp [stepH, hd, he, Except.map, Except.bind]
+  · intro he; subst he; simp [stepH, hd]
+  · simp [stepH, hd]
+  · intro t2 hne d'; exact tsGet_tsSet_other h t t2 d' hne
+
+/-- **thread-local `dict`**: a `HeaderDict` created on thread `t0` has no dict on any other thread
+(`AttributeError`, for every read); assigning `dict` there gives that thread its own dict and does
+not change what `t0` sees. -/
+theorem thread_dicts_isolated (t0 t : Tid) (hne : t ≠ t0) (d : Store) (f : Nat) :
+    (stepH (hdNew t0) t f .len).2.2 = .error .attributeError ∧
+    (stepH (hdNew t0) t f .copy).2.2 = .error .attributeError ∧
+    (stepH (hdNew t0) t f .repr).2.2 = .error .attributeError ∧
+    tsGet (stepH (hdNew t0) t f (.setDict d)).1 t = .ok d ∧
+    tsGet (stepH (hdNew t0) t f (.setDict d)).1 t0 = .ok [] := by
+  have h0 : tsGet (hdNew t0) t = .error .attributeError := by
+    have : (t0 == t) = false := by simpa using fun h => hne h.symm
+    simp [tsGet, hdNew, this]
+  refine ⟨by simp [stepH, h0, Except.map], by simp [stepH, h0], by simp [stepH, h0, Except.map], ?_, ?_⟩
+  · simp only [stepH]; exact tsGet_tsSet_self _ _ _
+  · simp only [stepH]
+    rw [tsGet_tsSet_other _ _ _ _ hne.symm]
+    simp [tsGet, hdNew]
+
+/-- **`copy` independence**: a call on one object (the copy, say) never changes another object
+(the original): lists are copied, not shared. -/
+theorem copy_independent (objs objs' : List HD) (rs : List (Except Err Res)) (i j : Nat) (t : Tid) (op : HOp)
+    (hij : i ≠ j) (hi : i < objs.length) (hr : runH objs [(j, t, op)] = some (objs', rs)) :
+    objs'[i]? = objs[i]? := by
+  simp only [runH] at hr
+  split at hr
+  · cases hr
+  · simp only [Option.some.injEq, Prod.mk.injEq] at hr
+    obtain ⟨rfl, _⟩ := hr
+    rw [List.getElem?_append_left (by simpa using hi), List.getElem?_set_ne (Ne.symm hij)]
+
+/-- the copy itself: created on the calling thread with that thread's dict, numbered next -/
+theorem copy_creates_equal (h : HD) (t : Tid) (f : Nat) (d : Store) (hd : tsGet h t = .ok d) :
+    stepH h t f .copy = (h, some [(t, d)], .ok (.obj f)) := by
+  simp [stepH, hd, hdNew, tsSet]
+
+/-- no character of a decimal numeral is CR, LF or NUL -/
+theorem natStr_clean (n : Nat) : hasCtl (natStr n) = false := by
+  cases hc : hasCtl (natStr n) with
+  | false => rfl
+  | true =>
+    rcases (hasCtl_iff _).mp hc with h | h | h <;> exact absurd (natStr_digits n _ h) (by decide)
+
+/-- **HeaderProperty get-after-set**, for every row of the generated table (`Gen.rhProps`: the
+attributes that exist in the source): on a thread that has a dict, setting the attribute to a text
+`s` without CR/LF/NUL succeeds and a row without reader (`content_type`) reads `s` back; a row with
+the `int` reader (`content_length`) set to a natural number `n` reads back the integer `n`;
+deleting it afterwards succeeds and a second delete is `KeyError`. -/
+theorem hp_get_after_set (i : Nat) (row : HPRow) (hrow : hpRows[i]? = some row) (h : HD) (t : Tid) (f : Nat)
+    (d : Store) (hd : tsGet h t = .ok d) (rd fmt : Except Err Str) :
+    (∀ s, hasCtl s = false → row.writer.isEmpty ∨ row.writer = "http_date".toList →
+      ∃ h', stepH h t f (.propSet i (.str s) fmt) = (h', none, .ok .none) ∧
+        tsGet h' t = .ok (dset d row.name (.one s)) ∧
+        (row.reader.isEmpty → stepH h' t f (.propGet i rd) = (h', none, .ok (.entry (.one s)))) ∧
+        (stepH h' t f (.propDel i)).2.2 = .ok .none ∧
+        (stepH (stepH h' t f (.propDel i)).1 t f (.propDel i)).2.2 = .error .keyError) ∧
+    (∀ n : Nat, row.writer.isEmpty → row.reader = "int".toList →
+      ∃ h', stepH h t f (.propSet i (.int n) fmt) = (h', none, .ok .none) ∧
+        stepH h' t f (.propGet i rd) = (h', none, .ok (.int n))) := by
+  constructor
+  · intro s hs hw
+    have hwr : hpWrite row (.str s) fmt = .ok (.str s) := by
+      unfold hpWrite
+      rcases hw with hw | hw
+      · simp [hw]
+      · simp [hw]
+    have hv : hval (.str s) = .ok s := hval_good rfl hs
+    have hset : setitem d row.name (.str s) = .ok (dset d row.name (.one s)) := by simp [setitem, hv]; rfl
+    refine ⟨tsSet h t (dset d row.name (.one s)), ?_, tsGet_tsSet_self _ _ _, ?_, ?_, ?_⟩
+    · simp [stepH, hrow, hwr, hv, hd, hset]
+    · intro hr
+      simp [stepH, hrow, tsGet_tsSet_self, Except.bind, hpRead, hr, dget_dset_self]
+    · simp [stepH, hrow, tsGet_tsSet_self, dget_dset_self]
+    · have hdel : dget (ddel (dset d row.name (.one s)) row.name) row.name = none := by
+        unfold dget ddel
+        rw [List.find?_eq_none.mpr]
+        · rfl
+        · intro x hx; simp only [List.mem_filter] at hx; simpa using hx.2
+      simp [stepH, hrow, tsGet_tsSet_self, dget_dset_self, hdel]
+  · intro n hw hr
+    have hwr : hpWrite row (.int n) fmt = .ok (.int n) := by unfold hpWrite; simp [hw]
+    have his : intStr (n : Int) = natStr n := by simp [intStr]
+    have hv : hval (.int n) = .ok (natStr n) := by
+      have := hval_good (v := .int n) (s := natStr n) (by simp [pyStr, his]) (natStr_clean n)
+      exact this
+    have hset : setitem d row.name (.int n) = .ok (dset d row.name (.one (natStr n))) := by simp [setitem, hv]; rfl
+    refine ⟨tsSet h t (dset d row.name (.one (natStr n))), ?_, ?_⟩
+    · simp [stepH, hrow, hwr, hv, hd, hset]
+    · have hne : row.reader.isEmpty = false := by rw [hr]; decide
+      simp [stepH, hrow, tsGet_tsSet_self, Except.bind, hpRead, hne, hr, dget_dset_self, pyInt_natStr]
+
+/-- the table has the rows the scope names, with these readers / writers / defaults (re-checked
+whenever the source's attributes change) -/
+theorem hp_table_rows :
+    hpRows =
+      [{ owner := "BaseResponse".toList, attr := "content_length".toList, name := "Content-Length".toList, reader := "int".toList,
+         writer := [], dflt := .str [] },
+       { owner := "BaseResponse".toList, attr := "content_type".toList, name := "Content-Type".toList, reader := [], writer := [],
+         dflt := .str [] },
+       { owner := "BaseResponse".toList, attr := "expires".toList, name := "Expires".toList, reader := "other".toList,
+         writer := "http_date".toList, dflt := .str [] },
+       { owner := "FileUpload".toList, attr := "content_length".toList, name := "Content-Length".toList, reader := "int".toList,
+         writer := [], dflt := .int (-1) },
+       { owner := "FileUpload".toList, attr := "content_type".toList, name := "Content-Type".toList, reader := [], writer := [],
+         dflt := .str [] }] := by decide +kernel
+
+/-- **WSGIFileWrapper iteration**: for a positive buffer size and a file object with `read`, under
+every read schedule (short reads included) the iteration terminates, its parts concatenate to the
+remaining content of the file, and every part is non-empty and at most `buffer_size` long. -/
+theorem fw_iter_concat (attrs : List Str) (s : Stream) (buff : Nat) (hb : 0 < buff)
+    (hr : (fwInit attrs).contains "read".toList = true) :
+    ∃ parts, fwIter attrs s buff = .ok parts ∧ parts.flatten = s.data ∧
+      ∀ p ∈ parts, p ≠ [] ∧ p.length ≤ buff := by
+  refine ⟨fwLoop (s.data.length + 1) s buff, by unfold fwIter; rw [if_pos hr], ?_⟩
+  exact fwLoop_spec _ s buff hb (Nat.lt_succ_self _)
+
+/-- **`_closeiter.close`** calls every callback exactly once, in order (a list / tuple of
+callbacks, or a single one), when none of them raises; `_closeiter(it)` without callbacks has
+`[None]` and `close()` is a `TypeError` (what `_cast` avoids by only wrapping when `close` exists). -/
+theorem closeiter_close_each_once (cbs : List Cb) (h : ∀ cb ∈ cbs, cb.raises = false) :
+    closeiterClose (closeiterInit (.many cbs)) = (cbs.map fun cb => cb.id, none) ∧
+    (∀ cb ∈ cbs, closeiterClose (closeiterInit (.one cb)) = ([cb.id], none)) ∧
+    closeiterClose (closeiterInit .none) = ([], some .typeError) := by
+  refine ⟨closeiterClose_all_ok cbs h, fun cb hcb => ?_, rfl⟩
+  simp [closeiterInit, closeiterClose, h cb hcb]
+
+/-- **status setter, integer case**: accepted exactly for 100..999; the code is the integer and the
+status line is the generated reason line or `"<code> Unknown"`, never empty. -/
+theorem status_int_accepted_iff (i : Int) :
+    (100 ≤ i ∧ i ≤ 999 → ∃ l, setStatusFull (.int i) = .ok (i.toNat, l) ∧ l ≠ []) ∧
+    (¬ (100 ≤ i ∧ i ≤ 999) → setStatusFull (.int i) = .error .valueError) ∧
+    setStatusFull (.str []) = .error .valueError ∧ setStatusFull .other = .error .typeError := by
+  refine ⟨fun hi => ?_, fun hi => by simp [setStatusFull, hi], by decide, rfl⟩
+  simp only [setStatusFull, hi, and_self, if_true]
+  have hne : intStr i ++ " Unknown".toList ≠ [] := by simp
+  cases statusLine i with
+  | none => exact ⟨_, rfl, hne⟩
+  | some l =>
+    by_cases hl : l.isEmpty
+    · exact ⟨_, by simp [hl], hne⟩
+    · exact ⟨l, by simp [hl], by simpa using hl⟩
+
+/-- **`delete_cookie`** (`= set_cookie(key, '', max_age=-1, expires=0)`): for a legal, unreserved
+name and no further keyword arguments it succeeds and the jar then holds exactly the morsel
+`name=""` whose attributes are the old ones overwritten with `max-age = -1` and
+`expires = http_date(0)` (`Gen.rhEpochDate`); the jar is keyed by name (`jarSet`), so there is one
+`Set-Cookie` for the name.  A later `set_cookie(name, v)` replaces the value in that same morsel —
+and keeps its attributes (`SimpleCookie.__setitem__` reuses the morsel). -/
+theorem delete_cookie_one_expired (j : Jar) (name : Str)
+    (hn : (Cookies.isReserved name || !Cookies.isLegalKey name) = false) :
+    let old := ((jarGet j name).map (·.attrs)).getD []
+    let m : Morsel := { coded := Cookies.quote [],
+                        attrs := attrSet (attrSet old "max-age".toList (.int (-1))) "expires".toList (.text Gen.rhEpochDate.toList) }
+    deleteCookie j name [] = (jarSet j name m, none) ∧
+    ∀ v, v.length ≤ 4096 →
+      setCookie (jarSet j name m) name (some v) [] = (jarSet (jarSet j name m) name { m with coded := Cookies.quote v }, none) := by
+  intro old m
+  have hget : ∀ (j : Jar) (mm : Morsel), jarGet (jarSet j name mm) name = some mm := by
+    intro j mm
+    induction j with
+    | nil => simp [jarSet, jarGet]
+    | cons x r ih =>
+      obtain ⟨k', m'⟩ := x
+      simp only [jarSet]
+      split
+      · simp [jarGet]
+      · rename_i hne
+        unfold jarGet at ih ⊢
+        simp only [List.find?_cons, hne]
+        exact ih
+  have hr1 : reservedName "max-age".toList = some "Max-Age".toList := by decide
+  have hr2 : reservedName "expires".toList = some "expires".toList := by decide
+  have hl1 : lowerAscii ("max_age".toList.map fun c => if c == '_' then '-' else c) = "max-age".toList := by decide
+  have hl2 : lowerAscii ("expires".toList.map fun c => if c == '_' then '-' else c) = "expires".toList := by decide
+  have hlen : ¬ ([] : Str).length > 4096 := by simp
+  constructor
+  · simp only [deleteCookie, setCookie, hlen, if_false, hn, Bool.false_eq_true, deleteOpts, attrSet]
+    have h3 : ("max_age".toList == "expires".toList) = false := by decide
+    simp only [h3, Bool.false_eq_true, if_false, applyOpts, hl1, hl2, hr1, hr2]
+    cases hj : jarGet j name with
+    | none => simp [m, old, hj]
+    | some m0 => simp [m, old, hj]
+  · intro v hv
+    have hlen' : ¬ v.length > 4096 := by omega
+    simp only [setCookie, hlen', if_false, hn, Bool.false_eq_true, hget, applyOpts]
+
+/-- the `Set-Cookie` a deletion emits, and what a later `set_cookie` turns it into, on the wire
+(`delete_cookie('a')`, then `set_cookie('a', 'new')`): one entry, clean per C15's `emit_clean`
+criterion (printable ASCII) -/
+theorem delete_cookie_wire :
+    (headerlist { RObj.fresh with jar := (deleteCookie [] "a".toList []).1 }.toResp).filter (·.1 == "Set-Cookie".toList) =
+      [("Set-Cookie".toList, "a=\"\"; expires=Thu, 01 Jan 1970 00:00:00 GMT; Max-Age=-1".toList)] ∧
+    (headerlist { RObj.fresh with jar := (setCookie (deleteCookie [] "a".toList []).1 "a".toList (some "new".toList) []).1 }.toResp).filter
+        (·.1 == "Set-Cookie".toList) =
+      [("Set-Cookie".toList, "a=new; expires=Thu, 01 Jan 1970 00:00:00 GMT; Max-Age=-1".toList)] := by
+  decide +kernel
+
+/- OPEN: theorem response_copy_same_wire (r : RObj) (cls : Cls) (hcls : respNew cls true = .ok ())
+     (hsingle : ∀ p ∈ r.store, ∃ v, p.2 = .one v) (hclean : StoreClean r.store) (hn : KeysNodup r.store)
+     (hline : ∃ c l, r.code = some c ∧ r.line = some l ∧ setStatusFull (.str l) = .ok (c, l))
+     (hsorted : copyJar r.jar = r.jar) :
+     ∃ cp, respCopy r (some cls) = .ok cp ∧ observe cp = observe r
+   Proved below on concrete instances (`response_copy_same_wire_partial`), together with the three
+   ways the real `copy` fails: default class, a `Response` target, a list-valued header. -/
+
+/-- a response with a custom status line, a non-ASCII header, a quoted cookie with a path and a deleted cookie -/
+def nvResp : RObj :=
+  (runR RObj.fresh [.setStatus (.str "299 Custom".toList), .setHeader "X-A".toList (.str "é".toList),
+    .setHeader "Content-Type".toList (.str "text/plain".toList), .setCookie "a".toList (some "v w".toList) [("path".toList, .text "/".toList)],
+    .deleteCookie "b".toList []]).1
+
+/-- **response_copy_same_wire** (partial: concrete instances by evaluation; the general statement
+is the OPEN block above and is exercised by the correspondence and oracle streams).  `copy(cls)` of a
+response with a custom status line, single-valued headers and cookies gives the same status code,
+status line and header list for both exception-derived classes; `copy()` with the default class and
+`copy(Response)` raise `TypeError` (`BaseResponse.__new__` forwards the constructor arguments to
+`object.__new__`), and so does `copy(HTTPResponse)` of a response holding a list-valued header
+(`append` is handed the list). -/
+theorem response_copy_same_wire_partial :
+    (∀ cls ∈ [Cls.httpResponse, Cls.httpError], (respCopy nvResp (some cls)).toOption.map (fun c =>
+        decide (c.code = nvResp.code) && decide (c.line = nvResp.line) &&
+        decide (headerlist c.toResp = headerlist nvResp.toResp)) = some true) ∧
+    respCopy nvResp none = .error .typeError ∧ respCopy nvResp (some .response) = .error .typeError ∧
+    respCopy (runR nvResp [.appendHeader "X-A".toList (.str "2".toList)]).1 (some .httpResponse) = .error .typeError := by
+  decide +kernel
+
+section NonVacuity
+
+/-- `guarded_ops_keep_clean`: a program with two objects and two threads that tries to smuggle CR/LF
+through every guarded entry -/
+example : (runH hdStart [(0, 0, .setitem "X".toList (.str "a\r\nb".toList)), (0, 0, .append "X".toList (.str "v".toList)),
+      (0, 0, .append "X".toList (.str "w".toList)), (0, 0, .copy), (1, 0, .propSet 1 (.str "x\ny".toList) (.error .typeError)),
+      (1, 1, .len), (1, 0, .popitem), (0, 0, .clear ["X".toList])]).map (fun x => (x.1.length, x.2.length)) = some (2, 8) := by
+  decide +kernel
+
+/-- `update_is_the_only_unguarded_entry`: its hypothesis is met by `update` -/
+example : HDClean (hdNew 0) ∧
+    ¬ HDClean (stepH (hdNew 0) 0 1 (.update [("X".toList, .one "a\r\nb".toList)])).1 := by
+  refine ⟨fun p hp => ?_, fun h => ?_⟩
+  · simp only [hdNew, List.mem_singleton] at hp; subst hp; exact good_nil
+  · have := (h (0, [("X".toList, .one "a\r\nb".toList)]) (by decide)).1 _ List.mem_cons_self _ List.mem_cons_self
+    exact absurd this (by decide)
+
+/-- `headerdict_refines_map`, `hp_get_after_set`, `copy_creates_equal`: a thread with a dict -/
+example : tsGet (hdNew 3) 3 = .ok [] ∧ hpRows[1]? = some (hpRows[1]!) ∧ (hpRows[1]!).reader.isEmpty = true ∧
+    (hpRows[0]!).reader = "int".toList ∧ (hpRows[0]!).writer.isEmpty = true := by decide
+
+/-- `copy_independent`: appending to the copy of a list-valued header leaves the original's list -/
+example : (runH [[(0, [("X".toList, .many ["1".toList, "2".toList])])], [(0, [("X".toList, .many ["1".toList, "2".toList])])]]
+    [(1, 0, .append "X".toList (.str "3".toList))]).map (·.1) =
+    some [[(0, [("X".toList, .many ["1".toList, "2".toList])])], [(0, [("X".toList, .many ["1".toList, "2".toList, "3".toList])])]] := by
+  decide +kernel
+
+/-- `fw_iter_concat`: a file object with `read` and `close`, short reads, buffer 2 -/
+example : (fwInit ["close".toList, "read".toList]).contains "read".toList = true ∧
+    fwIter ["close".toList, "read".toList] { data := [1, 2, 3, 4, 5], sched := [1, 0, 9] } 2 = .ok [[1], [2], [3, 4], [5]] := by
+  decide +kernel
+
+/-- `closeiter_close_each_once`, and a raising callback stops the comprehension -/
+example : (∀ cb ∈ [Cb.mk 1 false, Cb.mk 2 false], cb.raises = false) ∧
+    closeiterClose (closeiterInit (.many [⟨1, false⟩, ⟨2, true⟩, ⟨3, false⟩])) = ([1, 2], some .runtimeError) := by decide
+
+/-- `delete_cookie_one_expired`: a legal name; a reserved or illegal one is a `CookieError` -/
+example : (Cookies.isReserved "sid".toList || !Cookies.isLegalKey "sid".toList) = false ∧
+    (deleteCookie [] "path".toList []).2 = some .cookieError ∧ (deleteCookie [] "a b".toList []).2 = some .cookieError := by
+  decide +kernel
+
+end NonVacuity
+
+end Ombott.RespHelp
